@@ -198,13 +198,25 @@ pub fn run(ctx: &mut Ctx) -> (String, Value, Vec<String>) {
     let mut sparse_points = 0u64;
     {
         let tail = upper_tail;
-        let small_means = [0.001, 0.002, 0.005, 0.01, 0.02, 0.05, 0.1, 0.2, 0.3, 0.5, 0.7, 0.9, 1.5, 2.5, 4.5];
-        let all_eps = [0.5, 0.1, 1e-2, 1e-3, 1e-4, 1e-5, 1e-6, 1e-7, 1e-8, 1e-9, 1e-10, 1e-11, 1e-12];
+        let mut small_means = vec![0.001, 0.002, 0.005, 0.01, 0.02, 0.05, 0.1, 0.2, 0.3, 0.5, 0.7, 0.9, 1.5, 2.5, 4.5];
+        let mut all_eps = vec![0.5, 0.1, 1e-2, 1e-3, 1e-4, 1e-5, 1e-6, 1e-7, 1e-8, 1e-9, 1e-10, 1e-11, 1e-12];
+        if !ctx.quick() {
+            // thorough: a geometric ladder of 60 means between 1e-4 and ~6 and half-decade epsilons
+            let mut m = 1e-4f64;
+            while m < 6.0 {
+                small_means.push(m);
+                m *= 1.2;
+            }
+            for k in 1..=11 {
+                all_eps.push(3.0 * 10f64.powi(-k - 1));
+            }
+            all_eps.sort_by(|a, b| b.partial_cmp(a).unwrap());
+        }
         for m in small_means {
             for (rate, delta) in [(m, 1u64), (m / 8.0, 8u64), (m / 1000.0, 1000u64)] {
                 let mean = rate * delta as f64;
                 let mut prev: Option<(f64, u64)> = None;
-                for eps in all_eps {
+                for eps in all_eps.iter().copied() {
                     evals += 1;
                     sparse_points += 1;
                     let case = json!({"rate": rate, "epsilon": eps, "delta": delta});
@@ -269,7 +281,7 @@ pub fn run(ctx: &mut Ctx) -> (String, Value, Vec<String>) {
         "rule": "every (rate, epsilon, delta) grid point with rate*delta in {0..50 densely, 60 ... 5000 sparsely}: number_arrivals (watchdog-guarded) vs the smallest n with CDF(n) >= 1-eps under an independent log-space pmf with compensated summation (tolerance band 1e-9 around the threshold); pmf compared at 5 points each; the object obtained through Poisson::approximate and a jittered clone must agree; non-trivial = mean >= 1",
         "grid_points": g.len(),
         "sparse_process_points": sparse_points,
-        "sparse_process_rule": "means 0.001 .. 4.5 (15 values, each as three rate/delta pairs) x epsilon 0.5 .. 1e-12 (13 values): returned n must satisfy P[N > n] <= eps and P[N > n-1] > eps with the upper tail summed directly (band 1e-6*eps + 5e-14); a smaller epsilon never lowers the answer",
+        "sparse_process_rule": "means 0.001 .. 4.5 (15 values; thorough: plus a geometric ladder of 60 means from 1e-4 to 6; each as three rate/delta pairs) x epsilon 0.5 .. 1e-12 (13 values; thorough: 24): returned n must satisfy P[N > n] <= eps and P[N > n-1] > eps with the upper tail summed directly (band 1e-6*eps + 5e-14); a smaller epsilon never lowers the answer",
         "samples": samples,
         "exhaustive": true,
     });
